@@ -2,11 +2,22 @@
 from .facts import call_names, call_target
 from .framework import RuleResult
 from . import origin as og
-from .rulekit import sites, sites_containing, arg_origin, has_call, variant_fact, truth_fact, facts_at, switch_succ_with, always_reaches, shortfn
+from .rulekit import reach_without_edges, sites, sites_containing, arg_origin, has_call, variant_fact, truth_fact, facts_at, switch_succ_with, always_reaches, shortfn
 from .rules_panic import API as PUB
 
 CARRIER = "teos::carrier::Carrier::"
 POLL = "teos::chain_monitor::ChainMonitor::<'a, P, C, L>::poll_best_tip::{closure#0}"
+
+
+def _flag_sites(ctx, b):
+    """blocks of b that lower the reachability flag: a call of the helper, or the store `*guard = false` spelled out"""
+    out = [bb for bb, t in b.calls() if (call_target(t) or "") == CARRIER + "flag_bitcoind_unreachable"]
+    for bb in b.rpo():
+        for s_ in b.blocks[bb]["s"]:
+            if s_["k"] == "assign" and s_["d"][-1] == "*" and s_["rv"]["k"] == "use" and "k" in s_["rv"]["o"] and s_["rv"]["o"]["k"].get("bool") is False \
+                    and "f:bitcoind_reachable" in og.show(ctx.og.local(b, s_["d"][0])):
+                out.append(bb)
+    return sorted(set(out))
 
 
 def rule_OUT(ctx, tier):
@@ -25,7 +36,7 @@ def rule_OUT(ctx, tier):
             else:
                 rr.fail("rpc-without-wait:%s" % shortfn(fn), "`%s` issues the RPC on a path that has not waited for bitcoind to be reachable" % shortfn(fn), where=b.line_of(bb))
         rec = [x for x in sites(b, fn)]
-        flag = sites(b, CARRIER + "flag_bitcoind_unreachable")
+        flag = _flag_sites(ctx, b)
         if not rec or not flag:
             rr.fail("transport-arm-missing:%s" % shortfn(fn), "`%s` has no flag-unreachable + retry for transport errors (flag sites %d, self calls %d)" % (shortfn(fn), len(flag), len(rec)), where=b.span)
             continue
@@ -36,7 +47,8 @@ def rule_OUT(ctx, tier):
                 rr.fail("transport-arm-guard:%s" % shortfn(fn), "`%s` is called outside the JsonRpc(Transport(_)) arm in `%s`" % (shortfn(call_target(b.term(x))), shortfn(fn)), where=b.line_of(x))
         for x in rec:
             a = arg_origin(ctx, b, x, 1)
-            if a == ("param", b.id, 2) and CARRIER + "flag_bitcoind_unreachable" in before.get(x, set()):
+            flagged_first = not reach_without_edges(b, 0, x, {(fl, s_) for fl in flag for s_ in b.succ(fl)}, stop=lambda q: q in flag)
+            if a == ("param", b.id, 2) and flagged_first:
                 rr.ok("%s: retry re-issues the same request after flagging" % shortfn(fn), sample={"rule": "OUT", "function": fn, "transport arm": "flag_bitcoind_unreachable(); self(%s)" % og.show(a)})
             else:
                 rr.fail("retry-shape:%s" % shortfn(fn), "the transport-error retry in `%s` does not re-issue the same argument after flagging the outage" % shortfn(fn), where=b.line_of(x))
@@ -103,13 +115,18 @@ def rule_OUT(ctx, tier):
         rr.ok("hang_until_bitcoind_reachable waits on the condvar")
     else:
         rr.fail("no-wait", "hang_until_bitcoind_reachable does not wait", where=h.span)
-    f = P.require(CARRIER + "flag_bitcoind_unreachable")
-    fw = [ctx.og._rvalue(f, s["rv"], 0, ()) for bb in f.rpo() for s in f.blocks[bb]["s"] if s["k"] == "assign" and len(s["d"]) > 1 and f.locals[s["d"][0]]["ty"].startswith(("&mut bool", "std::sync::MutexGuard")) or (s["k"] == "assign" and s["d"][-1] == "*")]
-    vals = {x[1] for x in fw if x[0] == "const"}
+    # the Carrier's own writes of the flag are all `false` (it may only lower it; raising it is the monitor's job)
+    vals = set()
+    for fid in [x for x in P.bodies if x.startswith(CARRIER) and "::tests::" not in x]:
+        fb = P.bodies[fid]
+        for bb in fb.rpo():
+            for s_ in fb.blocks[bb]["s"]:
+                if s_["k"] == "assign" and s_["d"][-1] == "*" and s_["rv"]["k"] == "use" and "k" in s_["rv"]["o"] and "bool" in s_["rv"]["o"]["k"] and "f:bitcoind_reachable" in og.show(ctx.og.local(fb, s_["d"][0])):
+                    vals.add(s_["rv"]["o"]["k"]["bool"])
     if vals == {False}:
-        rr.ok("flag_bitcoind_unreachable stores false")
+        rr.ok("the Carrier only ever lowers the reachability flag")
     else:
-        rr.fail("flag-value", "flag_bitcoind_unreachable stores %s" % vals, where=f.span)
+        rr.fail("flag-value", "the Carrier stores %s into the reachability flag" % sorted(vals), where=P.bodies[CARRIER + "send_transaction"].span)
     # monitor
     pb = P.require(POLL)
     writes = []
